@@ -53,13 +53,15 @@ def build(case):
     M.config.sort_neighborhoods = bool(case["sort"])
     kind = case["kind"]
     F0, E0 = case.get("F0") or [], case.get("E0") or []
+    sc = 2.0 ** int(case.get("scale_exp") or 0)          # exact in binary64: orientation is scale-free
+    VV = [[float(x) * sc for x in p] for p in case["V"]]
     if kind == "from_arrays":
-        return M.mesh.from_arrays(np.array(case["V"], dtype=float),
+        return M.mesh.from_arrays(np.array(VV, dtype=float),
                                   E=np.array(E0, dtype=int) if E0 else None,
                                   F=np.array(F0, dtype=int) if F0 else None,
                                   C=np.array(case["C"], dtype=int))
     d = RawMeshData()
-    d.vertices += [[float(x) for x in p] for p in case["V"]]
+    d.vertices += VV
     for e in E0:
         d.edges.append(list(e) if kind == "list" else (tuple(e) if kind == "tuple" else np.array(e, dtype=int)))
     for f in F0:
@@ -103,8 +105,46 @@ def run_case(case):
     out["edges"] = [ilist(e) for e in m.edges]
     out["nverts"] = len(m.vertices)
     co = m.connectivity
+    import numpy as np
+    rep = {"int": int, "np.int64": np.int64, "np.int32": np.int32,
+           "np.uint8": (lambda x: np.uint8(x) if 0 <= x < 256 else int(x))}.get(case.get("argrep") or "int", int)
+    old_flag = M.config.display_duplicate_attribute_warning
+    if case.get("collide"):
+        # user attributes that happen to carry the names the border caches use, with arbitrary values
+        M.config.display_duplicate_attribute_warning = True
+        a_v = m.vertices.create_attribute("border", bool)
+        for v in range(len(m.vertices)):
+            a_v[v] = True
+        a_e = m.edges.create_attribute("border", bool)
+        for e in range(len(m.edges)):
+            a_e[e] = True
+    try:
+        _run_script(M, m, co, case, out, rep)
+    finally:
+        M.config.display_duplicate_attribute_warning = old_flag
+    return out
+
+
+def spoil_surface(s, dicts):
+    """mutate a returned boundary surface and its index dicts in place"""
+    try:
+        for d in dicts:
+            d.clear()
+        if len(s.faces) > 0:
+            s.faces[0] = (0, 0, 0)
+        for i in range(len(s.vertices)):
+            s.vertices[i] += 1000.0
+    except Exception:
+        pass
+
+
+def _run_script(M, m, co, case, out, rep):
     for op in case["script"]:
         name, a = op[0], op[1:]
+        bad = name.startswith("bad:")
+        if bad:
+            name = name[4:]
+        a = [rep(x) if isinstance(x, int) and not isinstance(x, bool) else x for x in a]
         try:
             if name == "edge":
                 e, order = a
@@ -124,19 +164,35 @@ def run_case(case):
             elif name in ("boundary_faces", "interior_faces", "boundary_edges", "interior_edges",
                           "boundary_vertices", "interior_vertices"):
                 r = canon(getattr(m, name))
+            elif name in ("face_id_t", "face_id_l"):
+                r = canon(co.face_id(tuple(a) if name == "face_id_t" else list(a)))
             elif name == "enable_bc":
                 m.enable_boundary_connectivity()
+                bc0, s0 = m.boundary_connectivity, m.boundary_mesh
+                spoil_surface(s0, [bc0.m2b_vertex, bc0.b2m_vertex, bc0.m2b_face, bc0.b2m_face, bc0.m2b_edge, bc0.b2m_edge])
+                m.enable_boundary_connectivity()          # a second build must not see the spoiled first one
                 bc = m.boundary_connectivity
                 s = m.boundary_mesh
                 d = obs_surface(s)
+                d["distinct"] = (s is not s0) and (bc is not bc0) and (bc.m2b_vertex is not bc0.m2b_vertex)
+                acc = {"f2v": [], "v2f": []}
+                for F in range(len(m.faces)):
+                    acc["f2v"].append(ilist(bc.face_to_vertices(F)))
+                for Vv in range(len(m.vertices)):
+                    rr = bc.vertex_to_faces(Vv)
+                    acc["v2f"].append(None if rr is None else ilist(rr))
+                d["acc"] = acc
                 d.update({"m2b_v": dict_pairs(bc.m2b_vertex, 1), "b2m_v": dict_pairs(bc.b2m_vertex, 0),
                           "m2b_f": dict_pairs(bc.m2b_face, 1), "b2m_f": dict_pairs(bc.b2m_face, 0),
                           "m2b_e": dict_pairs(bc.m2b_edge, 0), "b2m_e": dict_pairs(bc.b2m_edge, 1),
                           "same_mesh": bc.mesh is s})
                 r = ["bc", d]
             elif name == "extract":
-                s, m2b, b2m = M.processing.border.extract_boundary_of_volume(m)
+                s0, m2b0, b2m0 = M.processing.border.extract_boundary_of_volume(m)
+                spoil_surface(s0, [m2b0, b2m0])
+                s, m2b, b2m = M.processing.border.extract_boundary_of_volume(m)   # equal arguments, fresh result
                 d = obs_surface(s)
+                d["distinct"] = (s is not s0) and (m2b is not m2b0) and (b2m is not b2m0)
                 d.update({"m2b_v": dict_pairs(m2b, 1), "b2m_v": dict_pairs(b2m, 0), "class": type(s).__name__})
                 r = ["ex", d]
             else:
@@ -144,10 +200,11 @@ def run_case(case):
         except Exception as ex:  # noqa
             r = ["err", "%s: %s" % (type(ex).__name__, ex)]
         out["answers"].append(r)
-    return out
 
 
 def main():
+    import warnings
+    warnings.simplefilter("ignore")
     payload = json.load(sys.stdin)
     import mouette.processing.border  # noqa: F401
     res = {"obs": [run_case(c) for c in payload["cases"]]}
